@@ -51,7 +51,8 @@ func (f *FilterData) SelectorMatch(item any) bool {
 		}
 
 		itemValue := itemF.Elem().Interface()
-		if itemValue != value {
+		// the values may be structs containing slices or pointers
+		if !reflect.DeepEqual(itemValue, value) {
 			return false
 		}
 	}
